@@ -1355,6 +1355,22 @@ class Interp:
             if is_c(x) and is_c(lo) and is_c(hi):
                 return [(s, C(min(max(x[1], lo[1]), hi[1])))]
             return [(s, ("call", "clamp", (x, lo, hi), None))]
+        if krate == "core" and name in ("next_multiple_of", "is_multiple_of", "div_ceil", "rem_euclid", "div_euclid") and len(args) == 2:
+            a, b = self.load_ref(s, args[0]), self.load_ref(s, args[1])
+            if is_c(a) and is_c(b) and b[1] > 0:
+                r = {"next_multiple_of": ((a[1] + b[1] - 1) // b[1]) * b[1], "is_multiple_of": int(a[1] % b[1] == 0), "div_ceil": (a[1] + b[1] - 1) // b[1],
+                     "rem_euclid": a[1] % b[1], "div_euclid": a[1] // b[1]}[name]
+                if r <= 0xFFFFFFFFFFFFFFFF:
+                    return [(s, C(r))]
+            return [(s, ("call", name, (a, b), None))]
+        if krate == "core" and name in ("is_power_of_two", "trailing_zeros", "leading_zeros", "count_ones") and len(args) == 1:
+            a = self.load_ref(s, args[0])
+            if is_c(a) and a[1] >= 0:
+                v = a[1]
+                r = {"is_power_of_two": int(v > 0 and v & (v - 1) == 0), "trailing_zeros": (64 if v == 0 else (v & -v).bit_length() - 1),
+                     "leading_zeros": 64 - v.bit_length(), "count_ones": bin(v).count("1")}[name]
+                return [(s, C(r))]
+            return [(s, ("call", name, (a,), None))]
         if krate == "core" and name == "wrapping_neg" and len(args) == 1:
             a = self.load_ref(s, args[0])
             if is_c(a):
